@@ -207,7 +207,18 @@ func (u *Unit) binop(st *State, fr *Frame, in *ssa.BinOp) Val {
 						return IntLit(0)
 					}
 				} else {
-					q, _ := u.floorDivMod(a, pow2(uint(b.I.Int64())))
+					sh := b.I.Int64()
+					if sh%8 == 0 && sh > 8 {
+						// whole bytes: the same chain of divisions by 256 the
+						// big-endian encoders use (floor(floor(x/256)/256) ==
+						// floor(x/65536)), so both name the same quotients
+						q := a
+						for i := int64(0); i < sh/8; i++ {
+							q, _ = u.floorDivMod(q, big.NewInt(256))
+						}
+						return q
+					}
+					q, _ := u.floorDivMod(a, pow2(uint(sh)))
 					return q
 				}
 			}
@@ -362,7 +373,7 @@ func (u *Unit) seqEqTerm(a1 *Term, o1 *Term, l1 *Term, a2 *Term, o2 *Term, l2 *T
 type seqFact struct {
 	e              *Term
 	a1, o1, a2, o2 *Term
-	l              *Term
+	l, l2          *Term
 	wk             *Term
 	scope          int
 	active         bool
@@ -371,11 +382,9 @@ type seqFact struct {
 
 func (u *Unit) nameSeqEq(full, a1, o1, l1, a2, o2, l2 *Term) *Term {
 	e := u.newBool("seq")
-	wk := u.newInt("wk")
+	u.S.Assert(Implies(e, Eq(l1, l2))) // quantifier-free part: known to feasibility checks too
 	u.S.Assert(Implies(e, full))
-	diff := Not(Eq(Select(a1, Add(o1, wk)), Select(a2, Add(o2, wk))))
-	u.S.Assert(Or(e, Not(Eq(l1, l2)), And(Le(IntLit(0), wk), Lt(wk, l1), diff)))
-	f := &seqFact{e: e, a1: a1, o1: o1, a2: a2, o2: o2, l: l1, wk: wk, scope: u.S.ScopeID()}
+	f := &seqFact{e: e, a1: a1, o1: o1, a2: a2, o2: o2, l: l1, l2: l2, scope: u.S.ScopeID()}
 	live := u.seqFacts[:0]
 	for _, g := range u.seqFacts {
 		if u.S.Alive(g.scope) {
@@ -387,15 +396,40 @@ func (u *Unit) nameSeqEq(full, a1, o1, l1, a2, o2, l2 *Term) *Term {
 		u.seqByName = map[string]*seqFact{}
 	}
 	u.seqByName[e.S] = f
-	for _, g := range u.seqFacts {
-		if g != f && g.active && u.S.Alive(g.activeScope) {
+	// the positions already of interest (reads made for active witnesses)
+	lw := u.wreads[:0]
+	for _, r := range u.wreads {
+		if u.S.Alive(r.scope) {
+			lw = append(lw, r)
+		}
+	}
+	u.wreads = lw
+	u.witnessMode++
+	u.instBudget = 40
+	for _, r := range append([]readRec(nil), lw...) {
+		u.instAtRead(f, r)
+	}
+	u.witnessMode--
+	// aligned instantiation at the active witness positions (no cascade)
+	saved := u.witnessMode
+	u.witnessMode = 0
+	for _, g := range append([]*seqFact(nil), u.seqFacts...) {
+		if g != f && g.active && g.wk != nil && u.S.Alive(g.activeScope) {
 			u.instSeq(f, g.wk)
 		}
 	}
+	u.witnessMode = saved
 	return e
 }
 
+// instSeq: f at position idx of both sequences (aligned instantiation; covers
+// sides that are derived arrays, which reads cannot be matched against).
 func (u *Unit) instSeq(f *seqFact, idx *Term) {
+	key := "sinst:" + f.e.S + "@" + idx.S
+	if e, ok := u.readMemo[key]; ok && u.S.Alive(e.scope) {
+		return
+	}
+	u.readMemo[key] = divEntry{q: TTrue, scope: u.S.ScopeID()}
 	u.S.Assert(Implies(And(f.e, Le(IntLit(0), idx), Lt(idx, f.l)), Eq(Select(f.a1, Add(f.o1, idx)), Select(f.a2, Add(f.o2, idx)))))
 	u.Instances++
 }
@@ -422,11 +456,23 @@ func (u *Unit) activate(f *seqFact) {
 		return
 	}
 	f.active, f.activeScope = true, u.S.ScopeID()
-	for _, g := range u.seqFacts {
-		if u.S.Alive(g.scope) {
-			u.instSeq(g, f.wk)
+	// if e is false and the lengths agree, the sequences differ at wk; every
+	// named equality is instantiated at the positions this reads
+	wk := u.newInt("wk")
+	f.wk = wk
+	u.witnessMode++
+	u.instBudget = 120
+	diff := Not(Eq(Select(f.a1, Add(f.o1, wk)), Select(f.a2, Add(f.o2, wk))))
+	u.S.Assert(Or(f.e, Not(Eq(f.l, f.l2)), And(Le(IntLit(0), wk), Lt(wk, f.l), diff)))
+	u.witnessMode--
+	saved := u.witnessMode
+	u.witnessMode = 0
+	for _, g := range append([]*seqFact(nil), u.seqFacts...) {
+		if g != f && u.S.Alive(g.scope) {
+			u.instSeq(g, wk)
 		}
 	}
+	u.witnessMode = saved
 }
 
 func (u *Unit) equal(st *State, x, y Val, t types.Type) *Term {
@@ -663,7 +709,7 @@ func (u *Unit) indexAddr(st *State, fr *Frame, in *ssa.IndexAddr) Val {
 			// element at a symbolic position: an unconstrained element cached
 			// under the index term (sound for reads; a store through it makes
 			// the list content unknown, see store)
-			c := u.keyedCell(fmt.Sprintf("list%d[%d+%s]", xv.List.ID, xv.LOff, idx.S), xv.Elem, true, xv.List.Sym)
+			c := u.keyedCell(fmt.Sprintf("list%d[%d+%s]", xv.List.ID, xv.LOff, idx.S), xv.Elem, true, xv.List.Sym && !xv.List.New)
 			u.symIdxCells[c.ID] = xv.List
 			if _, isPtr := xv.Elem.Underlying().(*types.Pointer); isPtr && xv.Len.IsInt && xv.Len.I.IsInt64() && xv.Len.I.Int64() >= 1 && xv.Len.I.Int64() <= 16 && u.specMode == 0 {
 				// a short list of pointers: the element at a symbolic position
